@@ -255,7 +255,7 @@ fn judge_threshold(ctx: &mut Ctx, e: &Envelope, keys: &[&Key], replay: &dyn Fn()
 
 pub fn run(ctx: &mut Ctx) {
     let pool = key_pool(2, ctx.shard % 4 == 0 || ctx.tier == crate::ctx::Tier::Thorough);
-    let total = ctx.n(2_400, 60_000);
+    let total = ctx.n(12_000, 300_000);
     for case in ctx.cases(total) {
         ctx.begin_case(case);
         let mut rng = ctx.rng(case);
